@@ -44,5 +44,15 @@ CHECKS['C08'] = dict(category='proof',
    note='Assumed: qubit membership summarised by the builder rule; the MethodType/copy/hasattr capture protocol of deform() is outside the subset (bounded only). '
         'Trusted: z3, pyvc. bpauli.apply_deformation is not covered deductively.',
    technique='VCs from the AST of get_deformation / qubit_axis with symbolic location and lattice size; structural rule on the closures of deform; finite z3 lemma')
+CHECKS['C02'] = dict(category='proof',
+   text='Per lattice class, with symbolic lattice size: coordinate lists contain no duplicates, qubit and stabilizer coordinates are disjoint, every support '
+        'entry of get_stabilizer is a qubit and supports are never empty (builder-rule summaries + symbolic get_stabilizer). For ANY code (uninterpreted location '
+        'sort, index an arbitrary bijection): to_bsf and from_bsf satisfy their pointwise contracts by quantified inductive invariants whose step relation is the '
+        'symbolically executed loop body of the real method, and are mutually inverse. Hash-order independence by a taint scan of the indexing functions. '
+        'H assembly, stored values, CSS masks/blocks, sector dependence, sparse-row input, 200 random user-defined subclasses and 4 PYTHONHASHSEED values are '
+        'run-time contracts (bounded).',
+   note='Assumed: numpy nonzero() lists columns ascending; dict keys() visits each key once; a duplicate-free coordinate list makes qubit_index a bijection. '
+        'stabilizer_matrix (dok assembly) and the CSS properties are not proved, only checked at run time.',
+   technique='LIA VCs with symbolic lattice size; quantified loop invariants (ghost visited set) over the AST-derived loop body; taint scan; run-time contracts')
 _PENDING = 'check under construction in this session (contract-based check planned in DESIGN.md section 3); not claimed until its command exists'
 NOT_APPLICABLE = {p: _PENDING for p in ['C%02d' % i for i in range(1, 21)]}
